@@ -156,7 +156,7 @@ func (w *WaitGroup) Add(d int) {
 	if w.n < 0 {
 		panic("sync: negative WaitGroup counter")
 	}
-	vsched.RaceRelease(w)
+	vsched.RaceReleaseMerge(w)
 }
 
 //go:norace
@@ -234,7 +234,9 @@ type Map struct {
 //go:norace
 func (m *Map) Load(k any) (any, bool) {
 	vsched.PointOp(mapOp)
+	vsched.RaceAcquire(m)
 	v, ok := m.m[k]
+	vsched.RaceReleaseMerge(m)
 	return v, ok
 }
 
@@ -250,6 +252,7 @@ func (m *Map) Store(k, v any) {
 		m.k = append(m.k, k)
 	}
 	m.m[k] = v
+	vsched.RaceReleaseMerge(m)
 }
 
 //go:norace
